@@ -19,8 +19,17 @@ import (
 // ---------------------------------------------------------------------------------------------
 
 type codecImpl struct {
-	buf *commit.Buffer
-	n   int // number of puts so far (selects the Put* variant)
+	buf   *commit.Buffer
+	n     int        // number of puts so far (selects the Put* variant)
+	kinds []opKind   // chunk and kind of every op in the buffer, in buffer order
+	logW  *commit.Log
+	logB  *bytes.Buffer
+}
+
+type opKind struct {
+	chunk uint32
+	kind  string
+	size  int
 }
 
 func newCodecImpl() Impl { return &codecImpl{buf: commit.NewBuffer(64)} }
@@ -165,7 +174,54 @@ func (c *codecImpl) Exec(line string) string {
 		c.buf = commit.NewBuffer(64)
 		c.buf.Reset(w[1])
 		c.n = 0
+		c.kinds = nil
 		return "ok"
+	case w[0] == "reset" && len(w) == 2:
+		c.buf.Reset(w[1]) // re-use of a written buffer
+		c.kinds = nil
+		return "ok"
+	case w[0] == "swap" && len(w) == 5:
+		ch, e1 := strconv.ParseUint(w[1], 10, 32)
+		k, e2 := strconv.Atoi(w[2])
+		val, ok := unhex(w[4])
+		if e1 != nil || e2 != nil || !ok {
+			return "bad-op"
+		}
+		return c.swap(uint32(ch), k, w[3], val)
+	case w[0] == "log-new" && len(w) == 1:
+		c.logB = &bytes.Buffer{}
+		c.logW = commit.Open(c.logB)
+		return "ok"
+	case w[0] == "log-append" && len(w) == 3:
+		ch, e1 := strconv.ParseUint(w[1], 10, 32)
+		id, e2 := strconv.ParseUint(w[2], 10, 64)
+		if e1 != nil || e2 != nil {
+			return "bad-op"
+		}
+		if c.logW == nil {
+			c.logB = &bytes.Buffer{}
+			c.logW = commit.Open(c.logB)
+		}
+		if err := c.logW.Append(commit.Commit{ID: id, Chunk: commit.Chunk(ch), Updates: []*commit.Buffer{c.buf}}); err != nil {
+			return "err bad"
+		}
+		return "ok"
+	case w[0] == "log-range" && len(w) == 1:
+		var data []byte
+		if c.logB != nil {
+			data = append(data, c.logB.Bytes()...)
+		}
+		rd := commit.Open(bytes.NewReader(data))
+		var shown []string
+		err := rd.Range(func(cm commit.Commit) error {
+			var ups []string
+			for _, u := range cm.Updates {
+				ups = append(ups, fmt.Sprintf("col=%s ops=%s", u.Column, strings.ReplaceAll(rangeOps(u, cm.Chunk), " ", ",")))
+			}
+			shown = append(shown, fmt.Sprintf("id=%d chunk=%d %s", cm.ID, uint32(cm.Chunk), strings.Join(ups, " ; ")))
+			return nil
+		})
+		return fmt.Sprintf("log n=%d err=%v %s", len(shown), err != nil, strings.Join(shown, " || "))
 	case w[0] == "put" && len(w) == 5:
 		t, e1 := strconv.ParseUint(w[1], 10, 8)
 		idx, e2 := strconv.ParseUint(w[2], 10, 32)
@@ -176,6 +232,7 @@ func (c *codecImpl) Exec(line string) string {
 		if !c.put(uint8(t), uint32(idx), w[3], val) {
 			return "bad-op"
 		}
+		c.kinds = append(c.kinds, opKind{uint32(idx) >> 14, w[3], len(val)})
 		return "ok"
 	case w[0] == "seek" && len(w) == 1:
 		r := commit.NewReader()
@@ -248,6 +305,95 @@ func (c *codecImpl) Exec(line string) string {
 		return strings.TrimRight(fmt.Sprintf("clone id=%d ops %s", cl.ID, rangeOps(cl.Updates[0], cl.Chunk)), " ")
 	}
 	return "bad-op"
+}
+
+// swap positions a reader on the k-th op of the chunk and calls the Swap* method of the op's width
+func (c *codecImpl) swap(ch uint32, k int, kind string, val []byte) string {
+	// which op is it? (the reader does not expose whether the current op is a string)
+	pos := -1
+	n := 0
+	for i, ok := range c.kinds {
+		if ok.chunk == ch {
+			if n == k {
+				pos = i
+				break
+			}
+			n++
+		}
+	}
+	if pos < 0 {
+		return "no-op"
+	}
+	cur := c.kinds[pos]
+	fixed := func(x string) bool { return x == "f2" || x == "f4" || x == "f8" }
+	switch {
+	case fixed(kind) && cur.kind == kind:
+	case kind == "s" && cur.kind == "s":
+	default:
+		return "no-op"
+	}
+	c.n++
+	v := c.n
+	r := commit.NewReader()
+	seen := 0
+	done := false
+	r.Range(c.buf, commit.Chunk(ch), func(r *commit.Reader) {
+		for r.Next() {
+			if seen == k && !done {
+				done = true
+				switch kind {
+				case "f2":
+					x := binary.BigEndian.Uint16(val)
+					if v%2 == 0 {
+						r.SwapUint16(x)
+					} else {
+						r.SwapInt16(int16(x))
+					}
+				case "f4":
+					x := binary.BigEndian.Uint32(val)
+					switch v % 3 {
+					case 0:
+						r.SwapUint32(x)
+					case 1:
+						r.SwapInt32(int32(x))
+					default:
+						r.SwapFloat32(math.Float32frombits(x))
+					}
+				case "f8":
+					x := binary.BigEndian.Uint64(val)
+					switch v % 5 {
+					case 0:
+						r.SwapUint64(x)
+					case 1:
+						r.SwapInt64(int64(x))
+					case 2:
+						r.SwapFloat64(math.Float64frombits(x))
+					case 3:
+						r.SwapInt(int(x))
+					default:
+						r.SwapUint(uint(x))
+					}
+				case "s":
+					if v%2 == 0 {
+						r.SwapBytes(val)
+					} else {
+						r.SwapString(string(val))
+					}
+				}
+			}
+			seen++
+		}
+	})
+	if !done {
+		return "no-op"
+	}
+	if kind == "s" && cur.size != len(val) {
+		// Skip + appended Put at the end of the buffer
+		c.kinds = append(c.kinds, opKind{ch, "s", len(val)})
+	} else {
+		c.kinds[pos].size = len(val)
+	}
+	return "ok"
 }
 
 // ---------------------------------------------------------------------------------------------
@@ -382,6 +528,52 @@ func codecCase(name string, puts []putSpec, r *rand.Rand) Case {
 		feats["multi-chunk"] = true
 	}
 	lines = append(lines, "seek", "chunks", "writeto")
+	// reader-side rewriting: swaps of every width, same-size and resizing, on random positions
+	if len(puts) > 0 && r.Intn(2) == 0 {
+		nsw := 1 + r.Intn(3)
+		for i := 0; i < nsw; i++ {
+			p := puts[r.Intn(len(puts))]
+			ch := p.idx >> 14
+			k := r.Intn(len(puts))
+			kind := p.kind
+			if r.Intn(4) == 0 {
+				kind = codecKinds[r.Intn(len(codecKinds))]
+			}
+			val := randVal(r, kind, false)
+			lines = append(lines, fmt.Sprintf("swap %d %d %s %s", ch, k%(len(puts)), kind, hexOf(val)), fmt.Sprintf("range %d", ch))
+			feats["swap"] = true
+		}
+		lines = append(lines, "seek", "writeto")
+	}
+	// commit log over real s2 framing
+	if r.Intn(3) == 0 {
+		lines = append(lines, "log-new")
+		nl := 1 + r.Intn(3)
+		for i := 0; i < nl; i++ {
+			var ch uint32
+			if len(puts) > 0 {
+				ch = puts[r.Intn(len(puts))].idx >> 14
+			}
+			lines = append(lines, fmt.Sprintf("log-append %d %d", ch, 1+r.Int63n(1<<62)))
+			if r.Intn(2) == 0 {
+				extra := genPuts(r, 1+r.Intn(3), false, nil)
+				for _, e := range extra {
+					lines = append(lines, e.line())
+				}
+			}
+		}
+		lines = append(lines, "log-range")
+		feats["log"] = true
+	}
+	// re-use of the written buffer
+	if r.Intn(4) == 0 {
+		lines = append(lines, "reset z")
+		for _, e := range genPuts(r, 1+r.Intn(4), false, nil) {
+			lines = append(lines, e.line())
+		}
+		lines = append(lines, "seek", "writeto", "chunks")
+		feats["reset-reuse"] = true
+	}
 	n := 0
 	for ch := range chunks {
 		lines = append(lines, fmt.Sprintf("range %d", ch), fmt.Sprintf("commit-writeto %d %d", ch, 1+r.Int63n(1<<62)))
@@ -505,8 +697,40 @@ func codecOracle(c Case, out []string) string {
 			continue
 		}
 		switch w[0] {
-		case "new":
+		case "new", "reset":
 			puts = nil
+		case "swap":
+			if out[i] != "ok" {
+				break
+			}
+			// the op the reader was positioned on becomes a put of the new value (in place), or is
+			// marked Skip with the put appended at the end (byte strings of another length)
+			n := 0
+			for j, p := range puts {
+				f := strings.Split(p, ":")
+				idx, _ := strconv.ParseUint(f[1], 10, 32)
+				if strconv.FormatUint(idx>>14, 10) != w[1] {
+					continue
+				}
+				if strconv.Itoa(n) == w[2] {
+					oldLen := len(f[2]) / 2
+					if f[2] == "-" {
+						oldLen = 0
+					}
+					newLen := len(w[4]) / 2
+					if w[4] == "-" {
+						newLen = 0
+					}
+					if w[3] == "s" && oldLen != newLen {
+						puts[j] = fmt.Sprintf("4:%s:%s", f[1], f[2])
+						puts = append(puts, fmt.Sprintf("2:%s:%s", f[1], w[4]))
+					} else {
+						puts[j] = fmt.Sprintf("2:%s:%s", f[1], w[4])
+					}
+					break
+				}
+				n++
+			}
 		case "put":
 			if out[i] == "ok" {
 				puts = append(puts, fmt.Sprintf("%s:%s:%s", w[1], w[2], w[4]))
